@@ -53,6 +53,12 @@ func VsH_GetProof() {
 	vsAssert((err == nil) == valid, "proof-served-iff-the-stored-entry-verifies")
 	if err == nil {
 		vsAssert(proof != nil && bytes.Equal(proof.X, x) && bytes.Equal(proof.XPrime, xp) && proof.BL == bl, "served-proof-is-the-stored-entry")
+		// a proof handed out stays what it was when the same space serves the next challenge
+		x0, xp0 := append([]byte{}, x...), append([]byte{}, xp...)
+		var c2 pocutil.Hash
+		copy(c2[:], vsNondetBytes(32, "challenge2"))
+		mdb.GetProof(c2, false)
+		vsAssert(bytes.Equal(proof.X, x0) && bytes.Equal(proof.XPrime, xp0), "served-proof-is-not-overwritten-by-the-next-lookup")
 		vsReach("proof-served")
 	} else {
 		vsAssert(proof == nil, "no-proof-on-error")
